@@ -81,12 +81,13 @@ type c05Val struct {
 func sp(s string) *string { return &s }
 
 var c05Universe = []c05Val{
+	// values 1 and 3 differ in (b,c) but agree once the two strings are put end to end ("p"+"qs" = "pq"+"s"): a multi-column key must keep them apart
 	{"x", "p", nil, nil, 0},
-	{"y", "p", sp("q"), map[string]string{"k1": "u"}, 1},
-	{"z", "r", sp("q"), map[string]string{"k1": "u", "k2": "w"}, 1},
-	{"x", "r", nil, map[string]string{"k1": "w"}, 2},
+	{"y", "p", sp("qs"), map[string]string{"k1": "u"}, 1},
+	{"z", "pq", sp("qs"), map[string]string{"k1": "u", "k2": "w"}, 1},
+	{"x", "pq", sp("s"), map[string]string{"k1": "w"}, 2},
 	{"y", "r", sp("s"), map[string]string{"k2": "u"}, 0},
-	{"w", "p", sp("s"), nil, 2},
+	{"w", "p", nil, nil, 2},
 }
 
 var c05UUIDs = []string{
